@@ -113,8 +113,14 @@ REQUESTS = {
     'assist-nested-level2': ('assist', (27, 8)),
     'assist-nested-level2-star': ('assist', (28, 6)),
     'assist-global-declared-import': ('assist', (30, 8)),
+    # requests from other buffers than a.py: import-line completion, and a package named by a plain import in one buffer and by a
+    # dotted import in another
+    'assist-import-line-children': ('assist', (1, 16), 'from pkg import ', 'b2.py'),
+    'assist-import-line-dotted': ('assist', (1, 16), 'import pkg.beta.', 'b3.py'),
+    'assist-dotted-import-buffer': ('assist', (2, 8), 'import pkg.sub\npkg.sub.', 'tools.py'),
+    'assist-plain-import-buffer': ('assist', (2, 4), 'import pkg\npkg.', 'other.py'),
 }
-EDITS = ['w:d_extra', 'w:d_new', 'w:b_extra', 'w:c_extra', 'w:c_broken', 'w:h_extra', 'w:k_full', 'w:x_extra', 'w:y_extra', 'touch:d', 'touch:b', 'touch:c', 'create:e', 'create:f', 'create:pkg', 'delete:k', 'delete:pkg']
+EDITS = ['w:d_extra', 'w:d_new', 'w:b_extra', 'w:c_extra', 'w:c_broken', 'w:h_extra', 'w:k_full', 'w:x_extra', 'w:y_extra', 'touch:d', 'touch:b', 'touch:c', 'create:e', 'create:f', 'create:pkg', 'delete:k', 'delete:pkg', 'create:beta-mod', 'create:beta-init']
 ALPHABET = EDITS + sorted(REQUESTS)
 QUICK_EDITS = ['w:d_extra', 'w:d_new', 'w:b_extra', 'w:y_extra', 'w:c_broken', 'w:h_extra', 'w:k_full', 'touch:d', 'touch:b', 'create:e', 'create:f', 'create:pkg', 'delete:k', 'delete:pkg']
 QUICK_REQUESTS = ['assist-instance-attr', 'assist-star-class-attr', 'assist-names', 'assist-created-module', 'location-inherited-attr',
@@ -161,6 +167,19 @@ class World(object):
             if self.loaded_once:
                 self.edit_after_load = True
             return None
+        if op in ('create:beta-mod', 'create:beta-init'):
+            # a sub-directory of the package that gets its module first and its __init__.py later
+            if self.state['pkg']:
+                d = os.path.join(self.root, 'pkg', 'beta')
+                if op == 'create:beta-mod' and not os.path.exists(os.path.join(d, 'tools.py')):
+                    self.write('pkg/beta/tools', 'tvalue = 1\n')
+                    if self.loaded_once:
+                        self.edit_after_load = True
+                elif op == 'create:beta-init' and os.path.isdir(d) and not os.path.exists(os.path.join(d, '__init__.py')):
+                    self.write('pkg/beta/__init__', 'betavalue = 1\n')
+                    if self.loaded_once:
+                        self.edit_after_load = True
+            return None
         if op.startswith('create:'):
             key = op[7:]
             if not self.state[key]:
@@ -200,15 +219,19 @@ class World(object):
 
 def request(project, root, op):
     from supp import assistant, linter
-    kind, pos = REQUESTS[op]
-    fn = os.path.join(root, 'a.py')
+    kind, pos = REQUESTS[op][:2]
+    A_SRC_, fname = (REQUESTS[op][2], REQUESTS[op][3]) if len(REQUESTS[op]) > 2 else (A_SRC, 'a.py')
+    fn = os.path.join(root, fname)
     try:
         if kind == 'lint':
-            return ('ok', sorted(tuple(r[:4]) for r in linter.lint(project, A_SRC, fn)))
+            return ('ok', sorted(tuple(r[:4]) for r in linter.lint(project, A_SRC_, fn)))
         if kind == 'assist':
-            r = assistant.assist(project, A_SRC, pos, fn)
+            r = assistant.assist(project, A_SRC_, pos, fn)
+            if fname != 'a.py':
+                # import-line completion also lists what is on sys.path: keep what concerns the project
+                return ('ok', (r[0], [x for x in r[1] if x in ('sub', 'beta', 'tools', 'pkgvalue', 'pvalue')]))
             return ('ok', (r[0], list(r[1])))
-        res = assistant.location(project, A_SRC, pos, fn)
+        res = assistant.location(project, A_SRC_, pos, fn)
         out = []
         for r in res:
             if isinstance(r, list):
@@ -341,6 +364,15 @@ def run(run):
                 if ops[-1] in REQUESTS and any(o in EDITS for o in ops):
                     hs.append(ops)
         scope = 'length <= 4 over the full %d-symbol alphabet' % len(ALPHABET)
+    # directed longer histories (both tiers): a package directory that gets its module before its __init__.py, asked in between;
+    # one package named by a dotted import in one buffer and by a plain import in another
+    imp = ['assist-import-line-children', 'assist-import-line-dotted', 'assist-dotted-import-buffer', 'assist-plain-import-buffer', 'assist-created-package']
+    for r1 in imp:
+        for r2 in imp:
+            hs.append(('create:pkg', 'create:beta-mod', r1, 'create:beta-init', r2))
+            hs.append(('create:pkg', r1, 'create:beta-mod', 'create:beta-init', r2))
+            hs.append(('create:pkg', r1, r2, 'delete:pkg', r2))
+            hs.append(('create:pkg', 'create:beta-mod', 'create:beta-init', r1, r2))
     run.pmap(w_exhaustive, corpus_shards(hs, 64))
     run.extra['exhaustive'] = True
     run.extra['exhaustive_scope'] = 'all histories (%s) that contain an edit and end in a request: %d histories; longer histories sampled by the state machine' % (scope, len(hs))
